@@ -4,7 +4,11 @@
 
 extern "C" {
 #include <ufw/rfc1055.h>
+void slipsim_static_context(RFC1055Context *out, int with_sof);   // RFC1055_CONTEXT_INIT_DEFAULT / _WITH_SOF (sim/slipmacros.c)
+size_t slipsim_worst_case(size_t n, int with_sof);                // RFC1055_WORST_CLASSIC / _WITHSOF
 }
+static bool g_static_init = false;   // contexts come from the header's static initialisers instead of rfc1055_context_init()
+static void init_context(RFC1055Context *ctx, bool sof) { if (g_static_init) slipsim_static_context(ctx, sof); else rfc1055_context_init(ctx, sof ? RFC1055_WITH_SOF : RFC1055_DEFAULT); }
 
 namespace {
 
@@ -19,7 +23,7 @@ struct SlipHarness : Harness {
     std::vector<std::string> probes(const std::string &) const override {
         return {"garbage_ends_in_esc", "garbage_without_delimiter", "garbage_esc_followed_by_end", "sof_first_frame_lost", "empty_frame_sof", "empty_frame_classic",
                 "sink_error_on_escaped_octet", "encoder_source_error", "encoder_sink_error", "decoder_source_error", "decoder_sink_error", "illegal_sequence_reported",
-                "resynchronised_after_garbage", "concatenated_frames", "worst_case_length_reached", "source_error_between_frames_then_retry", "encode_while_decoder_is_inside_a_frame"};
+                "resynchronised_after_garbage", "concatenated_frames", "worst_case_length_reached", "source_error_between_frames_then_retry", "encode_while_decoder_is_inside_a_frame", "context_from_static_initialiser"};
     }
     uint64_t runs(const std::string &, const Tier &t) const override { return t.thorough() ? 30000000 : 2500000; }
 
@@ -63,7 +67,7 @@ struct SlipHarness : Harness {
     Json gen(const std::string &, Rng &r, const Tier &t, uint64_t) override {
         Json p = Json::obj();
         bool sof = r.chance(1, 2);
-        p["sof"] = sof;
+        p["sof"] = sof; if (r.chance(1, 3)) p["static_init"] = 1;
         p["src_octet"] = r.chance(1, 2); p["snk_octet"] = r.chance(1, 2);
         int maxlen = t.thorough() ? (r.chance(1, 10) ? 1024 : (r.chance(1, 3) ? 64 : 9)) : 9;
         bool full = t.thorough() ? r.chance(1, 2) : r.chance(1, 4);
@@ -134,7 +138,7 @@ struct SlipHarness : Harness {
         if (where == 0) { src.err_pos = pos; src.err_code = code; }
         if (where == 1) { snk.err_pos = pos; snk.err_code = code; }
         Source source; Sink sink; src.bind(&source); snk.bind(&sink);
-        RFC1055Context ctx; rfc1055_context_init(&ctx, sof ? RFC1055_WITH_SOF : RFC1055_DEFAULT);
+        RFC1055Context ctx; init_context(&ctx, sof);
         if (use) ctx = *use;   // a link's context as its decoder left it (the encoder takes it as const: only the mode may matter)
         Enc e; e.rc = 0;
         e.finished = WITH_BUDGET(c, 8 * payload.size() + 64, e.rc = rfc1055_encode(&ctx, &source, &sink));
@@ -152,7 +156,7 @@ struct SlipHarness : Harness {
         Dec(Ctx &cc, bool sof, bool so, bool ko, const Bytes &line) : c(cc) {
             src.c = &cc; snk.c = &cc; src.octet_kind = so; snk.octet_kind = ko; src.data = line;
             src.bind(&source); snk.bind(&sink);
-            rfc1055_context_init(&ctx, sof ? RFC1055_WITH_SOF : RFC1055_DEFAULT);
+            init_context(&ctx, sof);
         }
         // one decode call; returns rc, fills frame with the octets put to the sink during this call
         int call(Bytes &frame, size_t &consumed, bool &finished) {
@@ -181,6 +185,8 @@ struct SlipHarness : Harness {
 
     void exec(const Json &plan, Ctx &c) override {
         g_have_ctx = false; last_F.clear(); last_encs.clear();
+        g_bind_with_macros = plan.geti("static_init") != 0;
+        g_static_init = plan.geti("static_init") != 0; if (g_static_init) COUNT("probe.context_from_static_initialiser");
         exec_inner(plan, c);
         if (g_have_ctx) encode_on_used_context(c, plan.geti("sof") != 0, plan.geti("src_octet") != 0, plan.geti("snk_octet") != 0, last_F, last_encs, g_last_ctx);
     }
@@ -220,6 +226,7 @@ struct SlipHarness : Harness {
             const Bytes &o = e.out;
             size_t n = F[i].size();
             size_t bound = RFC1055_WORST_CASE(n, sof);
+            if (slipsim_worst_case(n, sof) != bound) c.fail("bound.macros", "RFC1055_WORST_%s(%zu) = %zu, RFC1055_WORST_CASE gives %zu", sof ? "WITHSOF" : "CLASSIC", n, slipsim_worst_case(n, sof), bound);
             if (o.size() > bound || o.size() > 2 * n + (sof ? 2 : 1)) c.fail("bound.encode", "encoding of %zu octets is %zu long, bound %zu", n, o.size(), bound);
             size_t ends = 0; for (uint8_t x : o) if (x == END) ++ends;
             bool okform = !o.empty() && o.back() == END && (sof ? (o.size() >= 2 && o.front() == END && ends == 2) : ends == 1);
